@@ -1161,8 +1161,9 @@ func (e *Entry) ApplyDeviate(deviateOpts ...DeviateOpt) []error {
 			continue
 		}
 
-		for dt, dv := range d.Deviate {
-			for _, devSpec := range dv {
+		for _, ds := range d.deviatesInOrder() {
+			{
+				dt, devSpec := ds.dt, ds.spec
 				switch dt {
 				case DeviationAdd, DeviationReplace:
 					if devSpec.Config != TSUnset {
@@ -1281,6 +1282,41 @@ func (e *Entry) ApplyDeviate(deviateOpts ...DeviateOpt) []error {
 	}
 
 	return errs
+}
+
+// A deviateSpec is one deviate statement of a deviation: its kind and the
+// Entry holding what it specifies.
+type deviateSpec struct {
+	dt   deviationType
+	spec *Entry
+}
+
+// deviatesInOrder returns the deviate statements of the deviation e in the
+// order in which they are written.  e.Deviate groups them by kind, which loses
+// the order between kinds; it is recovered from the deviation statement.
+func (e *Entry) deviatesInOrder() []deviateSpec {
+	var specs []deviateSpec
+	dn, ok := e.Node.(*Deviation)
+	if !ok {
+		// Not built from a deviation statement: fall back to a fixed
+		// order of kinds.
+		for _, dt := range []deviationType{DeviationUnset, DeviationNotSupported, DeviationAdd, DeviationReplace, DeviationDelete} {
+			for _, spec := range e.Deviate[dt] {
+				specs = append(specs, deviateSpec{dt, spec})
+			}
+		}
+		return specs
+	}
+	next := map[deviationType]int{}
+	for _, d := range dn.Deviate {
+		dt, ok := toDeviation[d.Statement().Argument]
+		if !ok || next[dt] >= len(e.Deviate[dt]) {
+			continue
+		}
+		specs = append(specs, deviateSpec{dt, e.Deviate[dt][next[dt]]})
+		next[dt]++
+	}
+	return specs
 }
 
 // FixChoice inserts missing Case entries for non-case entries within a choice
